@@ -13,7 +13,7 @@ demos = [f for f in glob.glob(f"{src}/demo{n}.*") if not f.endswith('.cmd')]
 if not os.path.exists(patch) or not demos:
     print("missing deliverable", patch, demos); sys.exit(2)
 demo = demos[0]
-dst = f"/verif/seeded/{ID}-{n}"
+dst = f"/verif/seeded/{os.environ.get('SEED_NAME') or (ID + '-' + n)}"
 os.makedirs(dst, exist_ok=True)
 meta = {}
 try:
